@@ -8,19 +8,40 @@ RULE = ("schema-first logical documents (nested objects, arrays, arrays of objec
         "x shapes derived from the document (full capture, random field subsets at every depth, duplicated/take-last/once fields, "
         "Option, Property, enum, any, typed hints incl. deliberately wrong ones) x paths {from_*_slice, from_*_tape, "
         "ObjectReader::deserialize (root and nested), from_*_reader with buffer sizes {longest token, +1, 64.., 32 KiB} and read "
-        "schedules {fill, 1 byte, random chunks}}.  non-trivial = a value (not an error) came out")
+        "schedules {fill, 1 byte, random chunks}}.  non-trivial = a value (not an error) came out.  "
+        # [spec_tie]
+        "spec_tie: every generated (document, rendering, shape) is converted to a Coq TextDoc.doc (props/spectie.py) and the EXTRACTED "
+        "Coq specification is run on it: TextDoc.render under the gaps of the rendering must reproduce the rendering byte for byte, "
+        "TextDeSpec.spec_value must equal dedoc.expected and every path's value, TextDoc.flatten / TextDeSpec.tokens must equal the "
+        "implementation's tape / reader tokens of the rendering; documents with ghost {} objects (~28%) are outside TextDoc (only "
+        "expected-vs-spec_value is evaluated, on the ghost-free document); plus hand-made pairs from corpus/C02/spec_tie.case")
 TRUSTED = ["walk_model: the extracted walks are fed the implementation's own tape (tt.parse) resp. reader tokens (tr.slice, chunking-independent by C07) of each text; Scalar::to_f64 is the extracted ScalarF64.to_f64_bits, the float casts of serde's visitors are the machine's (OCaml glue)",
            "serde's primitive Deserialize impls (u8..u64, i8..i64, f32, f64, bool, String, IgnoredAny) and serde-derive's code for "
            "jomini::text::Property<T> are used as they are (library behaviour, exercised not verified)",
            "the expected value is computed by props/dedoc.py:expected (decimal meaning, yes/no, decoded strings, missing Option = None, "
-           "unknown fields dropped, Property captures the operator) independently of the Rust code"]
+           "unknown fields dropped, Property captures the operator) independently of the Rust code",
+           # [spec_tie]
+           "spec_tie: dedoc.expected / dedoc.render_text are no longer trusted on their own: on every run they are compared with the extracted "
+           "TextDeSpec.spec_value / TextDoc.render (the definitions Props/C02_walk.v is stated over), and the implementation is compared with "
+           "spec_value directly.  Still Python-only: the conversion dedoc document -> TextDoc.doc (props/spectie.py to_textdoc; checked by the "
+           "byte-for-byte rendering comparison), the shape/document GENERATORS, the expected value of the nested `objreader@k` cases, the "
+           "classification captures_header of known finding H, max_token_len (buffer sizes).  The parameters of spec_value are instantiated "
+           "as those of the walk models (ocaml/fam_spectie.ml: Encoding.decode_*, ScalarF64.to_f64_bits, machine float casts)"]
 ASSUMPTIONS = ["targets request maps as maps and sequences as sequences (`fits`): container shapes are only put on containers of the same kind; "
                "`any` only on scalars; the root target is a struct or map",
                "documents avoid the constructs that the *lexing* properties C01/C07 own and currently get wrong (findings A, D, E, F, J, K): "
                "'!'/'?' glued to an unquoted key, chunked reads through an escaped quote; and three layout rules of the text format itself: "
                "'key{' without '=' is not the first entry of a nested container, an empty {} is not the first element of an array, "
                "rgb headers are not array elements (dom.rs treats header and block as two values there)",
-               "i64::MIN as text is refused by Scalar::to_i64 (C11's subject) and is not generated"]
+               "i64::MIN as text is refused by Scalar::to_i64 (C11's subject) and is not generated",
+               # [spec_tie]
+               "spec_tie scope: the Coq and the Python specification differ in SCOPE in two places, where the comparison is not made (counted as "
+               "tie_coq_unfit_*): TextDeSpec.spec_value answers UNFIT (a) where a header (rgb {..}) is visited -- TextDeSpec has no headers -- and "
+               "(b) for a map / struct target on the empty `{ }`, which TextDoc can only express as the empty array (dedoc.expected predicts the empty "
+               "map / the struct of defaults there, and the implementation agrees with it).  Any other UNFIT answer is reported as a disagreement.  "
+               "TextDoc has no ghost `{}` objects: those documents are outside the Coq grammar (rendering and implementation comparisons skipped).  "
+               "Of the in-grammar documents ~79% are in the CORE grammar of the walk theorems (core_fields; the rest contain a header somewhere); "
+               "spec_value is compared on all of them.  wf_layout is checked as far as it is executable (gap_okb of every gap; sep_ok is a Prop)"]
 
 
 def gen_case_shape(rng, doc):
@@ -90,6 +111,7 @@ def run(ctx):
     nt = lambda c, i: i.startswith("(")
     ndocs = ctx.scale(4000, 30000)
     cases, meta = [], []      # meta: (expected, group, key-if-known-class, docinfo)
+    tie_groups = []           # [spec_tie] (doc, enc, text, shape, expected, first case, number of cases)
     for _ in range(ndocs):
         esc_ok = rng.random() < 0.15
         doc = D.gen_doc(rng, ops=True, allow_escape=esc_ok)
@@ -112,6 +134,7 @@ def run(ctx):
         shs = D.shape_str(sh)
         g = len(meta)
         paths = ["slice", "tape", "objreader"] + reader_variants(rng, doc, enc, esc)
+        tie_groups.append((doc, enc, txt, sh, exp, len(cases), len(paths)))      # [spec_tie]
         for p in paths:
             known = "H-stream-header" if (hdr and "reader:" in p) else None
             cases.append("\t".join(["de.text", p, enc, shs, hx(txt)]))
@@ -139,6 +162,15 @@ def run(ctx):
             else:
                 pk = p.split(":")[0].split("@")[0]
                 ctx.fail("value-" + pk, "%s path returns %s, the document's values are %s" % (p, o[:200], exp[:200]), [cases[k]], [o], exp)
+
+    # ---- [spec_tie] BEGIN: the Coq specification (TextDeSpec.spec_value over TextDoc, TextDoc.render / flatten,
+    # TextDeSpec.tokens -- what Props/C02_walk.v is stated over) extracted and run on the documents, shapes and
+    # renderings generated above; see props/spectie.py.  (a) D.render_text = TextDoc.render of the converted document
+    # under the gaps of the rendering, byte for byte; (b) D.expected = spec_value; (c) every path's value above =
+    # spec_value; plus: the implementation's tape / reader tokens of the rendering = flatten / tokens of the document.
+    from props import spectie
+    spectie.run_text(ctx, tie_groups, cases, impl, base, ctx.scale(4000, 30000))
+    # ---- [spec_tie] END
 
     # fixed replays of the known deviations (each is re-found on every run; silent once the code is repaired)
     fcases = []
@@ -174,6 +206,6 @@ def search(ctx):
 
 CLAIM = {
     "text": "every public text deserializer entry point (from_*_slice, from_*_tape, ObjectReader::deserialize, from_*_reader over a scripted Read) is run through a runtime-shape serde interpreter on generated documents x layouts x encodings x shapes and compared with an independently computed expected value; Coq: see coverage.theorems",
-    "note": "Props/C02.v pins the scalar/struct level; Props/C02_walk.v pins the deserializer walks: for every document of the core grammar (scalars, objects of key-op-value fields, arrays, any nesting) and every shape that fits, the extracted tape walk (TextDeTape.deser_tape on flatten d) and the stream walk (TextDeStream.deser_stream on the reader's tokens of d) both return spec_value, hence agree; findings H and M are reproduced by the models as witness theorems. Outside the core grammar (object tails / 'remainder', key-value arrays, headers, parameters, ghosts, any on containers) the walks are modelled and compared with the implementation case by case (stream walk_model, incl. a 390-case hand corpus) but not proved. Props/C02_walk2.v composes the walks with the byte level (from_slice via C01_parse_render for every layout; from_reader via the reference tokenizer and C07_stream_eq_tok for every schedule and fitting capacity, on documents without parameter blocks whose bare words do not start with '?') and extends the tape walk theorem to the whole TextDoc grammar against TextDeSpec2.spec_value2 (remainder key for object tails and arrays where a map is asked for, {} as the empty object, headers into seq/tuple/String/number/enum/ignored, parameter blocks); the stream half beyond the core grammar is not proved (difference witnesses only). The stream model runs over the reader's token list (skip_container at token level).",
+    "note": "[spec_tie] The specification the walk theorems are stated over (TextDeSpec.spec_value over TextDoc documents, TextDoc.render / flatten, TextDeSpec.tokens) is extracted and run on the generated documents: the Python renderer and dedoc.expected are checked against it and the implementation's values are compared with spec_value directly (stream spec_tie, keys tie-text-*). Props/C02.v pins the scalar/struct level; Props/C02_walk.v pins the deserializer walks: for every document of the core grammar (scalars, objects of key-op-value fields, arrays, any nesting) and every shape that fits, the extracted tape walk (TextDeTape.deser_tape on flatten d) and the stream walk (TextDeStream.deser_stream on the reader's tokens of d) both return spec_value, hence agree; findings H and M are reproduced by the models as witness theorems. Outside the core grammar (object tails / 'remainder', key-value arrays, headers, parameters, ghosts, any on containers) the walks are modelled and compared with the implementation case by case (stream walk_model, incl. a 390-case hand corpus) but not proved. Props/C02_walk2.v composes the walks with the byte level (from_slice via C01_parse_render for every layout; from_reader via the reference tokenizer and C07_stream_eq_tok for every schedule and fitting capacity, on documents without parameter blocks whose bare words do not start with '?') and extends the tape walk theorem to the whole TextDoc grammar against TextDeSpec2.spec_value2 (remainder key for object tails and arrays where a map is asked for, {} as the empty object, headers into seq/tuple/String/number/enum/ignored, parameter blocks); the stream half beyond the core grammar is not proved (difference witnesses only). The stream model runs over the reader's token list (skip_container at token level).",
     "technique": "machine-checked proof in Coq over an executable model + model/implementation correspondence by extraction + specification oracle on the implementation",
 }
